@@ -1,6 +1,7 @@
 mod check;
 mod dbg;
 mod derived;
+mod holes;
 mod json;
 mod multi;
 mod jsonw;
@@ -15,9 +16,9 @@ use obs::Hop;
 use vcore::proptest::prelude::*;
 use vcore::{pick, Level};
 
-const RULE: &str = "a case is (value of one static type, capture attribute, #[emit::optional] wrapping, read path of 0-3 hops, as_map flag): the value is fed to the ONE fixed `emit::props!` call site stamped out for that (type, attribute, optional) combination and the resulting property is read before and after every hop (erased props, erased event through dyn ErasedEmitter, to_owned, to_shared, ThreadLocalCtxt push/root + with_current, ambient props of an event emitted through a Runtime, frame carried to another thread, owned copy moved to another thread). Values: every integer type at extremes/powers of two/random, f32/f64 incl. NaN, +-inf, -0, subnormals, bool, char, borrowed/owned/static strings with control and non-ASCII characters, Display-only and dyn Display/Debug values, Option<i32>, a recursive structured grammar (null/unit/option/seq/tuple/string-key and non-string-key maps/structs/all four enum variant shapes, depth <= 5) with hand-written serde+sval impls, six derive-based types, error chains of depth 0-4 and the well-known keys lvl/err/trace_id/span_id/span_parent. A further generator (shadowed-keys) captures a number/bool/string (every integer width, f32, f64, bool, &str, String; default, as_value, as_display, as_sval, as_serde) under a key that is ALSO present with a value of a different type (other integer widths, f64, bool, string, null, Level/TraceId/SpanId objects, Display-only) in one or two of the collections the event's props get joined with (and_props, `props:` base props of evt!/emit!, an `evt:` base event, ambient frames, the props of a span completed manually with emit!(evt: span), frames enclosing a span) and reads the key through every typed read path (pull::<T> for every FromValue type, get+cast, Value accessors; generic, by reference, &dyn ErasedProps, dedup(), as_map(), erased event, inside a generic Filter and Emitter): every such case counts as non-trivial. Non-trivial = structured value of container depth >= 2, or a number at the extreme of its type (MIN/MAX, non-finite, -0, smallest positive), or a read path of >= 2 hops.";
+const RULE: &str = "a case is (value of one static type, capture attribute, #[emit::optional] wrapping, read path of 0-3 hops, as_map flag): the value is fed to the ONE fixed `emit::props!` call site stamped out for that (type, attribute, optional) combination and the resulting property is read before and after every hop (erased props, erased event through dyn ErasedEmitter, to_owned, to_shared, ThreadLocalCtxt push/root + with_current, ambient props of an event emitted through a Runtime, frame carried to another thread, owned copy moved to another thread). Values: every integer type at extremes/powers of two/random, f32/f64 incl. NaN, +-inf, -0, subnormals, bool, char, borrowed/owned/static strings with control and non-ASCII characters, Display-only and dyn Display/Debug values, Option<i32>, a recursive structured grammar (null/unit/option/seq/tuple/string-key and non-string-key maps/structs/all four enum variant shapes, depth <= 5) with hand-written serde+sval impls, six derive-based types, error chains of depth 0-4 and the well-known keys lvl/err/trace_id/span_id/span_parent. A further generator (shadowed-keys) captures a number/bool/string (every integer width, f32, f64, bool, &str, String; default, as_value, as_display, as_sval, as_serde) under a key that is ALSO present with a value of a different type (other integer widths, f64, bool, string, null, Level/TraceId/SpanId objects, Display-only) in one or two of the collections the event's props get joined with (and_props, `props:` base props of evt!/emit!, an `evt:` base event, ambient frames, the props of a span completed manually with emit!(evt: span), frames enclosing a span) and reads the key through every typed read path (pull::<T> for every FromValue type, get+cast, Value accessors; generic, by reference, &dyn ErasedProps, dedup(), as_map(), erased event, inside a generic Filter and Emitter): every such case counts as non-trivial. Every observed value of a capture mode with a formatting clause is additionally formatted through Display and Debug under 11 + 2 non-default format specs (and, for numbers/booleans/strings, as an OwnedValue copy); a further generator (fmt-holes) renders i64 / f64 / String / structured values through template holes with #[emit::fmt(..)] flags (emit::format! and evt.msg()); a structured value of depth >= 2 counts as non-trivial there. Non-trivial = structured value of container depth >= 2, or a number at the extreme of its type (MIN/MAX, non-finite, -0, smallest positive), or a read path of >= 2 hops.";
 
-const ASSUMPTIONS: [&str; 10] = [
+const ASSUMPTIONS: [&str; 11] = [
     "the oracle is the property text: default capture of numbers/bools/strings must pull back as the same typed value (f32, which has no FromValue, as its exact f64 widening), anything else must display as its Display text; as_display/as_debug must give exactly format!(\"{}\")/format!(\"{:?}\"); as_serde must give serde_json(captured)==serde_json(original) and as_sval sval_json(captured)==sval_json(original) as text; the other framework's JSON of the captured value must denote the same document (own strict JSON reader: order and duplicates kept, numbers by value) as the capturing framework's JSON of the original; as_error / `err:` must expose the same source-chain messages through to_borrowed_error() and cast::<&dyn Error>(); #[emit::optional] None must be absent from get() and for_each()",
     "documented conversions that are asserted beyond the same-type pull: Value::as_f64 (`as` conversion for numbers, parse for strings, NaN otherwise) and String/Cow<str>/emit::Str casts of strings after buffering (book: working-with-events); integer casts to OTHER integer types and to f64 are undocumented: a None is accepted, a Some(different number) is a failure",
     "don't-care (counted, never failed): `&str`/to_borrowed_str casts after a buffering hop (documented to fail); cross-framework comparison when the ORIGINAL's own serde_json and sval_json renderings are not the same JSON document (e.g. unit structs: null vs \"Name\"; map keys serde_json refuses) or either is an error; Display text of non-primitive (Display-only, char, Level/TraceId/SpanId objects) values and error chains after a buffering hop (the text only promises buffering for numbers, booleans, strings and structured values); `Option::None` under a well-known key (absent or null)",
@@ -27,7 +28,8 @@ const ASSUMPTIONS: [&str; 10] = [
     "serde_json and sval_json themselves are trusted as serializers of the ORIGINAL value; value-bag / sval_serde / sval_buffer behaviour is part of what is observed, not trusted",
     "ThreadLocalCtxt state is per thread and per ctxt id; each worker thread owns one ctxt; frames are exited by guards, so a failing case cannot leak ambient state into the next",
     "shadowed keys: where the key captured at the call site is also present further out (base props, base event, ambient frames, span props), what is observed for the key is the call-site value with its captured type on every typed read path: each typed read answers exactly what the same read of the stand-alone `emit::props! { v: x }` of the same site answers (after the ambient context: except the borrowed-string/borrowed-error reads, and for as_display/as_sval/as_serde captures the read paths are only compared with one another); the de-duplicated joined props must satisfy the same absolute clauses as an unshadowed property; how often the raw joined props ENUMERATE the key is not asserted (dedup is the reader's job)",
-    "limits: call sites are emit::props! (the same capture hooks emit!/span! expand to); sinks (file/OTLP/term) are C13's domain; `Value::parse`, `to_f64_sequence` and Debug of Value are not asserted",
+    "format specs: the CONSUMER's format spec reaches the original's own impl. On unbuffered read paths (direct, &dyn ErasedProps, erased event) a value captured with as_debug / dbg! formatted as {:S?} AND as {:S} equals format!(\"{:S?}\", original) for S in {'', #, >12, <8, ^9, 08, +, .3, *>10.2, +09.1, #012.1} plus {:x?}, {:#X?}; captured with as_display (or a non-primitive by default) formatted as {:S} equals format!(\"{:S}\", original) (its Debug impl is not asserted); a typed number / boolean / string (default capture, as_value) formats as the original through both traits (debug-hex flags excepted: integers are stored widened), and keeps doing so after buffering and as an OwnedValue formatted through OwnedValue's own impls. Don't-care (counted): a debug/display capture after a buffering hop (it is held as text; flags other than padding act on the text). A template hole with #[emit::fmt(\"S\")] renders (emit::format!, evt.msg()) what the original formats as under the spec its capture mode maps to",
+    "limits: call sites are emit::props! (the same capture hooks emit!/span! expand to); sinks (file/OTLP/term) are C13's domain; `Value::parse`, `to_f64_sequence`, Debug of a display/sval/serde-captured Value and Debug of Event / as_map() are not asserted",
 ];
 
 fn hop() -> impl Strategy<Value = Hop> {
@@ -301,6 +303,16 @@ fn main() {
         s.require(obs::ENC_OTHER_VALUE, 1000);
         s.require(obs::ENC_OTHER_KEYS, 500);
 
+        // formatting under non-default format specs ({:#?}, {:>12?}, {:08}, {:+}, {:.3}, {:x?}, ...) of values
+        // captured in debug / display mode and of typed numbers, booleans and strings
+        s.require(check::SPEC_DEBUG_READ, 5000);
+        s.require(check::SPEC_DEBUG_PRETTY, 2000);
+        s.require(check::SPEC_DISPLAY_READ, 3000);
+        s.require(check::SPEC_TYPED_READ, 3000);
+        s.require(check::SPEC_TYPED_BUFFERED, 2000);
+        s.require(check::SPEC_TYPED_OWNED, 3000);
+        s.require(check::SPEC_DONTCARE, 1000);
+
         s.gen("primitives", s.n(100_000, 3_000_000), || case_of(prims()), sites::check);
         s.gen("strings", s.n(40_000, 1_200_000), || case_of(strings()), sites::check);
         s.gen("structured", s.n(80_000, 2_400_000), || case_of(structured()), sites::check);
@@ -354,5 +366,12 @@ fn main() {
             s.require(&format!("shadow:read/{path}"), 1500);
         }
         s.gen("shadowed-keys", s.n(40_000, 1_200_000), shadow::scase, shadow::check);
+
+        // template holes with #[emit::fmt("..")] flags: the consumer-chosen spec must reach the original's impl
+        s.require(holes::HOLE_DEBUG, 1000);
+        s.require(holes::HOLE_DEBUG_PRETTY, 300);
+        s.require(holes::HOLE_DISPLAY, 300);
+        s.require(holes::HOLE_TYPED, 300);
+        s.gen("fmt-holes", s.n(16_000, 480_000), holes::hcase, holes::check);
     })
 }
